@@ -398,6 +398,38 @@ Theorem recv_sequence_two_threads :
 Proof. exact (@threads_recv_sequence). Qed.
 Print Assumptions recv_sequence_two_threads.
 
+(* The timed branch of lock_with_timeout.  [LTry i]: thread i, not in a call, makes an extra recv_packet(timeout=0) while
+   the receive lock is held; it gets TimeoutError ([t_try]) and nothing else changes: *)
+Theorem recv_lock_timeout_untouched :
+  forall (P C : Type) (s : @tstate P C) (i : bool),
+    t_a (ttry s i) = t_a s /\ t_b (ttry s i) = t_b s /\ t_lock (ttry s i) = t_lock s /\ t_c (ttry s i) = t_c s /\
+    t_eof (ttry s i) = t_eof s /\ t_o (ttry s i) = t_o s /\ t_log (ttry s i) = t_log s.
+Proof. exact (@lock_timeout_untouched). Qed.
+Print Assumptions recv_lock_timeout_untouched.
+
+(* hence, with such calls anywhere in the schedule, the sequence of the other calls is what it would be without them *)
+Theorem recv_lock_serialises_with_lock_timeouts :
+  forall (P C : Type) (M : machine P C),
+    (forall c ch c' r n room, mtake M c ch = Some (c', r, n, room) -> ch <> [] -> 1 <= n) ->
+    forall (c0 : C) (o : oracle) (na nb : nat) (sch : list tlabel),
+      let s := trun_l M (tinit c0 o na nb) sch in
+      map snd (rev (t_log s)) =
+      firstn (length (t_log s)) (results (run_calls M Blocking (linit c0) o (repeat None (na + nb)))).
+Proof. exact (@lock_serialises_l_prog). Qed.
+Print Assumptions recv_lock_serialises_with_lock_timeouts.
+
+Theorem recv_lock_serialises_with_lock_timeouts_rel :
+  forall (P C : Type) (M : machine P C) (spec : bytes -> list (nres P)) (G : bytes -> Prop)
+         (R : C -> bytes -> nat -> Prop) (D : C -> bytes -> Prop),
+    consumer_ok_rel M spec G R D ->
+    forall c0 : C, R c0 [] 0 ->
+    forall (o : oracle) (na nb : nat) (sch : list tlabel), G (stream_of o) ->
+      let s := trun_l M (tinit c0 o na nb) sch in
+      map snd (rev (t_log s)) =
+      firstn (length (t_log s)) (results (run_calls M Blocking (linit c0) o (repeat None (na + nb)))).
+Proof. exact (@lock_serialises_l_rel). Qed.
+Print Assumptions recv_lock_serialises_with_lock_timeouts_rel.
+
 (* the same two theorems with progress required only on the states the loop reaches, obtained from the (relativised)
    consumer interface: this covers the buffer-filling machines *)
 Theorem recv_lock_serialises_rel :
